@@ -159,6 +159,74 @@ theorem fromScript_p2pkh (H160 : Bytes → Bytes) (chain : ChainParams) (payload
     simp [subclassFromBytes, base58FromBytes_pubkey chain payload hv hne]
   simp only [fromScript, hw1, hw2, hw3, hp, orElse_ok, orElse_addrerr]
 
+/-! ### the P2PKH converter on non-canonical pushes and on bare-pubkey scripts -/
+
+/-- whatever canonicalises to the standard P2PKH script is read as that P2PKH address -/
+theorem p2pkhFromScript_of_canon (H160 : Bytes → Bytes) (chain : ChainParams) (spk payload : Bytes)
+    (h : payload.length = 20) (hv : chain.pubkeyAddr < 256) (hne : chain.pubkeyAddr ≠ chain.scriptAddr)
+    (bare : Bool) (hc : canonicalize spk = .ok (stdScript .p2pkh payload)) :
+    p2pkhFromScript H160 chain spk true bare = .ok ⟨.p2pkh, chain.pubkeyAddr, payload⟩ := by
+  have e : stdScript .p2pkh payload = 0x76 :: 0xa9 :: 0x14 :: (payload ++ [0x88, 0xac]) := by
+    simp [stdScript]
+  rw [e] at hc
+  have hs : slice (0x76 :: 0xa9 :: 0x14 :: (payload ++ [0x88, 0xac])) 3 23 = payload := by
+    have : List.take 20 (payload ++ [0x88, 0xac]) = payload := by rw [← h]; exact List.take_left' rfl
+    simp [slice, this]
+  have h23 : (0x76 :: 0xa9 :: 0x14 :: (payload ++ [0x88, 0xac]))[23]? = some 0x88 := by
+    simp [List.getElem?_append_right, h]
+  have h24 : (0x76 :: 0xa9 :: 0x14 :: (payload ++ [0x88, 0xac]))[24]? = some 0xac := by
+    simp [List.getElem?_append_right, h]
+  simp only [p2pkhFromScript, hc, if_true, isWitnessV0Keyhash, isWitnessV0NestedKeyhash,
+    List.length_cons, List.length_append, h, h23, h24, hs]
+  simp [subclassFromBytes, base58FromBytes_pubkey chain payload hv hne]
+
+theorem rawStep_pushN (idx : Nat) (d rest : Bytes) (h0 : 0 < d.length) (h : d.length < 0x4c) :
+    rawStep idx (UInt8.ofNat d.length :: (d ++ rest)) = some (.op ⟨d.length, some d, idx⟩ rest) := by
+  have hn : (UInt8.ofNat d.length).toNat = d.length := toNat_ofNat_lt (by omega)
+  have h1 : List.take d.length (d ++ rest) = d := List.take_left' rfl
+  have h2 : List.drop d.length (d ++ rest) = rest := List.drop_left' rfl
+  have h3 : ¬ d.length > 0x4e := by omega
+  simp [rawStep, hn, h1, h2, h, h3]
+
+theorem canonicalize_barePubkey (pk : Bytes) (h0 : 0 < pk.length) (h : pk.length < 0x4c) :
+    canonicalize (Spec.Addr.barePubkeyScript pk) = .ok (Spec.Addr.barePubkeyScript pk) := by
+  unfold canonicalize rawIter Spec.Addr.barePubkeyScript
+  rw [rawIterFrom_op (rawStep_pushN _ pk _ h0 h)]
+  rw [rawIterFrom_op (rawStep_plain _ 0xac _ (by decide))]
+  rw [rawIterFrom_nil]
+  have hne : pk.length ≠ 0 := by omega
+  simp [recodeOp, pushEnc, h, hne, List.mapM_cons, List.mapM_nil, Except.map, bind, Except.bind, pure,
+    Except.pure]
+
+/-- the P2PKH converter on `<pubkey> CHECKSIG` (33- or 65-byte key, any bytes): the P2PKH address of
+    the hash160 of the whole pushed key -/
+theorem p2pkhFromScript_barePubkey (H160 : Bytes → Bytes) (chain : ChainParams) (pk : Bytes)
+    (hl : pk.length = 33 ∨ pk.length = 65) (hv : chain.pubkeyAddr < 256)
+    (hne : chain.pubkeyAddr ≠ chain.scriptAddr) :
+    p2pkhFromScript H160 chain (Spec.Addr.barePubkeyScript pk) true true =
+      .ok (Spec.Addr.barePubkeyAddr H160 chain pk) := by
+  have hc := canonicalize_barePubkey pk (by omega) (by omega)
+  unfold Spec.Addr.barePubkeyScript at hc ⊢
+  rcases hl with hl | hl
+  · have hs' : slice ((33 : UInt8) :: (pk ++ [0xac])) 1 34 = pk := by
+      have : List.take 33 (pk ++ [0xac]) = pk := by rw [← hl]; exact List.take_left' rfl
+      simp [slice, this]
+    have hl' : (pk ++ [(0xac : UInt8)])[33]? = some 0xac := by
+      simp [List.getElem?_append_right, hl]
+    rw [hl] at hc ⊢
+    simp only [p2pkhFromScript, hc, if_true, isWitnessV0Keyhash, isWitnessV0NestedKeyhash,
+      List.length_cons, List.length_append, hl]
+    simp [hs', hl', subclassFromBytes, base58FromBytes_pubkey chain _ hv hne, Spec.Addr.barePubkeyAddr]
+  · have hs' : slice ((65 : UInt8) :: (pk ++ [0xac])) 1 66 = pk := by
+      have : List.take 65 (pk ++ [0xac]) = pk := by rw [← hl]; exact List.take_left' rfl
+      simp [slice, this]
+    have hl' : (pk ++ [(0xac : UInt8)])[65]? = some 0xac := by
+      simp [List.getElem?_append_right, hl]
+    rw [hl] at hc ⊢
+    simp only [p2pkhFromScript, hc, if_true, isWitnessV0Keyhash, isWitnessV0NestedKeyhash,
+      List.length_cons, List.length_append, hl]
+    simp [hs', hl', subclassFromBytes, base58FromBytes_pubkey chain _ hv hne, Spec.Addr.barePubkeyAddr]
+
 /-! ### to_scriptPubKey on the prescribed addresses -/
 
 theorem pushEnc_short (d : Bytes) (h : d.length < 0x4c) : pushEnc d = .ok (UInt8.ofNat d.length :: d) := by
